@@ -1,0 +1,60 @@
+//! Read-only verification hooks (cargo feature `verif`). Nothing in here is
+//! compiled, or changes any behaviour, when the feature is off.
+
+/// A copy of the internal representation of a simulation state.
+#[derive(Clone, Debug)]
+pub enum Snapshot
+{
+    /// The state does not expose its representation
+    Opaque,
+    /// Coefficient vectors: for every range its shot count and its amplitudes
+    Vector { nr_bits: usize, counts: Vec<usize>, states: Vec<Vec<(f64, f64)>> },
+    /// Stabilizer tableaus: for every range its shot count and the `Display`
+    /// text of its tableau
+    Stabilizer { nr_bits: usize, counts: Vec<usize>, tableaus: Vec<String> }
+}
+
+/// One entry of the execution trace: the state after operation `op_index`.
+#[derive(Clone, Debug)]
+pub struct TraceEntry
+{
+    pub op_index: usize,
+    pub snapshot: Snapshot,
+    pub cstate: Vec<u64>
+}
+
+thread_local!
+{
+    static TRACE: ::std::cell::RefCell<Option<Vec<TraceEntry>>> = ::std::cell::RefCell::new(None);
+}
+
+/// Start recording a trace on this thread.
+pub fn trace_start()
+{
+    TRACE.with(|t| *t.borrow_mut() = Some(vec![]));
+}
+
+/// Stop recording and return the trace recorded on this thread.
+pub fn trace_take() -> Vec<TraceEntry>
+{
+    TRACE.with(|t| t.borrow_mut().take().unwrap_or_default())
+}
+
+pub(crate) fn trace_push<Q: crate::qustate::QuState>(op_index: usize, q_state: &Q,
+    cstate: &ndarray::Array1<u64>)
+{
+    TRACE.with(|t| {
+        if let Some(v) = t.borrow_mut().as_mut()
+        {
+            v.push(TraceEntry { op_index: op_index, snapshot: q_state.verif_snapshot(),
+                cstate: cstate.to_vec() });
+        }
+    });
+}
+
+/// Private helper `support::get_ranges`
+pub fn get_ranges(nrs: &[usize]) -> Vec<(usize, usize)> { crate::support::get_ranges(nrs) }
+/// Private helper `support::reverse_bits`
+pub fn reverse_bits(idx: u64, nr_bits: usize) -> u64 { crate::support::reverse_bits(idx, nr_bits) }
+/// Private helper `support::shuffle_bits`
+pub fn shuffle_bits(idx: u64, bits: &[usize]) -> u64 { crate::support::shuffle_bits(idx, bits) }
